@@ -1500,6 +1500,7 @@ func (c *Client) Clone() *Client {
 	cc.initCookieJar()
 
 	// clone client middleware
+	cc.roundTripWrappers = cloneSlice(c.roundTripWrappers)
 	if len(cc.roundTripWrappers) > 0 {
 		cc.wrappedRoundTrip = roundTripImpl{&cc}
 		for _, w := range cc.roundTripWrappers {
